@@ -50,6 +50,12 @@ def toml_str(s, literal=False):
     return toml_basic(s)
 
 
+def toml_multiline(s):
+    """Multi-line basic string: line feeds written as themselves."""
+    body = toml_basic(s)[1:-1].replace("\\n", "\n")
+    return '"""\n' + body + '"""'
+
+
 def toml_key(k):
     """Quoted key; a literal (single-quoted) key when the name holds a backslash or double quote, because the
     toml 0.10 parser used by bumpver does not unescape basic-string *keys*."""
@@ -91,7 +97,13 @@ def render_config(cfg, syntax, style=None):
         lines.append("version_pattern%s%s" % (eq, toml_str(cfg["version_pattern"], style.get("toml_literal"))))
         for key in STRING_KEYS:
             if cfg.get(key) is not None:
-                lines.append("%s%s%s" % (key, eq, toml_str(cfg[key], style.get("toml_literal"))))
+                # (the toml 0.10 parser drops blank lines at the start and blanks at line ends of multi-line strings; such
+                # values are written as one-line strings)
+                if style.get("toml_multiline") and "\n" in cfg[key] and all(
+                        ln and ln == ln.strip() and not ln.endswith("\\") for ln in cfg[key].split("\n")):
+                    lines.append("%s%s%s" % (key, eq, toml_multiline(cfg[key])))
+                else:
+                    lines.append("%s%s%s" % (key, eq, toml_str(cfg[key], style.get("toml_literal"))))
         for key in BOOL_KEYS:
             if cfg.get(key) is not None:
                 lines.append("%s%s%s%s" % (key, eq, "true" if cfg[key] else "false",
